@@ -178,13 +178,19 @@ func (e *env) callN(n int64, svc, method, path string, id ident, hdr map[string]
 			}
 		}
 	}
-	req, err := http.NewRequest(method, "http://127.0.0.1:"+e.ports[svc]+path, bytes.NewReader(body))
+	var rd io.Reader = bytes.NewReader(body)
+	if hdr["X-Verif-Chunked"] != "" && len(body) > 0 {
+		rd = io.MultiReader(rd) // hides the length: the client sends the body with Transfer-Encoding: chunked
+	}
+	req, err := http.NewRequest(method, "http://127.0.0.1:"+e.ports[svc]+path, rd)
 	if err != nil {
 		return reply{Err: err.Error()}
 	}
 	req.Host = "verif-app.appspot.com"
 	for k, v := range hdr {
-		req.Header.Set(k, v)
+		if k != "X-Verif-Chunked" {
+			req.Header.Set(k, v)
+		}
 	}
 	req.Header.Set("X-AppEngine-API-Ticket", ticket)
 	req.Header.Set("X-AppEngine-Request-Log-Id", reqID)
@@ -587,7 +593,11 @@ func (h *hist) opUStart(user, method, url string, target int, fs []string, raw b
 		h.e.api.AddFault(fc)
 	}
 	go func() {
-		c.done <- h.e.callN(n, "default", method, url, ident{User: wireUser}, map[string]string{"X-Verif": c.Marker}, body, 45*time.Second, raw)
+		hdr := map[string]string{"X-Verif": c.Marker}
+		if strings.Contains(url, "chunked=1") {
+			hdr["X-Verif-Chunked"] = "1"
+		}
+		c.done <- h.e.callN(n, "default", method, url, ident{User: wireUser}, hdr, body, 45*time.Second, raw)
 	}()
 	obs := map[string]interface{}{}
 	deadline := time.Now().Add(6 * time.Second)
@@ -1206,6 +1216,12 @@ func (h *hist) scriptSizes() {
 		h.opAFetch(ag0, "b0", h.lastK(), []string{"mc_get"})
 		h.opARespond(ag0, "b0", h.lastK(), n, 200, true, []string{})
 		h.opAList(ag0, "b0", []string{})
+	}
+	// uploads of unknown length (Transfer-Encoding: chunked on the client's side)
+	for _, n := range []int{900, 400000, 1200000} {
+		h.opUStart(us0, "POST", fmt.Sprintf("/up/%d?chunked=1", n), n, []string{}, false)
+		h.opAFetch(ag0, "b0", h.lastK(), []string{})
+		h.opARespond(ag0, "b0", h.lastK(), 700, 200, true, []string{})
 	}
 }
 
